@@ -187,6 +187,11 @@ pub struct Profile {
     pub interleave: bool,
     /// systematic enumeration of some knobs by case number (instead of sampling them)
     pub grid: Option<Grid>,
+    /// probability (per case) of a `prepare` on an index that holds NO item while a
+    /// higher-numbered index with items, pending marks, trees and metadata exists (the case
+    /// then has at least 2 indexes): never filled / built but empty / emptied with the
+    /// deletions pending. Always followed by `dump`.
+    pub empty_prepare: f64,
     /// single-op probes: probability (in %) of a probe block on an index that is built and
     /// clean, right after a round's commit (see `probe_block`)
     pub probes: u32,
@@ -284,6 +289,13 @@ impl IndexState {
     }
 }
 
+#[derive(Clone, Copy, Debug, PartialEq, Eq)]
+enum EmptyShape {
+    NeverFilled,
+    BuiltEmpty,
+    EmptiedPending,
+}
+
 #[derive(Default, Debug, Clone)]
 pub struct CaseStats {
     pub steps: usize,
@@ -301,6 +313,8 @@ struct Gen<'p> {
     est_polls: usize,
     stats: CaseStats,
     forced: Forced,
+    /// the index (position in `idx`) of the pending empty-index `prepare`, and its shape
+    empty_target: Option<(usize, EmptyShape)>,
     /// the open transaction answered MDB_MAP_FULL / MDB_BAD_TXN: only an abort helps
     txn_broken: bool,
     /// how many times that happened in this case
@@ -381,7 +395,15 @@ macro_rules! bail_if_dead {
 impl<'p> Gen<'p> {
     fn new(p: &'p Profile, mut r: Prng, overrides: &Overrides, case: u64) -> Gen<'p> {
         let forced = p.grid.as_ref().map(|g| g.cell(case)).unwrap_or_default();
-        let n = p.n_indexes.sample(&mut r).clamp(1, 8) as usize;
+        let mut n = p.n_indexes.sample(&mut r).clamp(1, 8) as usize;
+        let empty_shape = if r.chance(p.empty_prepare) {
+            if n < 2 {
+                n = if r.chance(0.5) { 2 } else { 3 };
+            }
+            Some(*r.pick(&[EmptyShape::NeverFilled, EmptyShape::BuiltEmpty, EmptyShape::EmptiedPending]))
+        } else {
+            None
+        };
         // index numbers
         let eligible: Vec<(u32, Vec<u16>)> =
             p.index_sets.iter().filter(|(_, s)| s.len() == n).cloned().collect();
@@ -438,7 +460,7 @@ impl<'p> Gen<'p> {
             Some(t) => IntDist::Const(t as u64),
             None => r.weighted(&p.threads).clone(),
         };
-        Gen {
+        let mut g = Gen {
             p,
             r,
             committed: idx.clone(),
@@ -447,9 +469,17 @@ impl<'p> Gen<'p> {
             est_polls: 0,
             stats: CaseStats::default(),
             forced,
+            empty_target: None,
             txn_broken: false,
             broken_count: 0,
+        };
+        if let Some(shape) = empty_shape {
+            // an index below the greatest one: the middle one more often when there are three
+            let len = g.idx.len();
+            let t = if len >= 3 && g.r.chance(0.6) { len - 2 } else { g.r.below(len as u64 - 1) as usize };
+            g.empty_target = Some((t, shape));
         }
+        g
     }
 
     fn describe(&mut self, ex: &mut Executor) {
@@ -1216,6 +1246,66 @@ impl<'p> Gen<'p> {
         true
     }
 
+    // ---------------------------------------------------------------- prepare on an empty index
+
+    /// If the case has a pending empty-index `prepare` and the conditions hold now (inside a
+    /// write transaction, after the updates of a later round): a higher-numbered index is
+    /// built and holds items. Makes the target empty in the wanted way, makes sure the higher
+    /// index has pending marks, changes the metric of the target, dumps, observes.
+    fn empty_prepare(&mut self, ex: &mut Executor) -> bool {
+        let Some((t, shape)) = self.empty_target else { return true };
+        let target_index = self.idx[t].index;
+        let higher = (0..self.idx.len()).find(|h| {
+            self.idx[*h].index > target_index && self.idx[*h].built_once && !self.idx[*h].items.is_empty()
+        });
+        let Some(h) = higher else { return true };
+        if shape != EmptyShape::NeverFilled && !self.idx[t].built_once {
+            return true;
+        }
+        self.empty_target = None;
+        let w = self.idx[t].w();
+        bail_if_dead!(ex.exec(&Op::Note(format!(
+            "prepare on the empty index {target_index} ({shape:?}), index {} is above it",
+            self.idx[h].index
+        ))));
+        if shape != EmptyShape::NeverFilled {
+            let ids: Vec<u32> = self.idx[t].items.keys().copied().collect();
+            for id in ids {
+                bail_if_dead!(self.step(ex, Op::Del(w, id)));
+                if self.txn_broken {
+                    return self.recover(ex);
+                }
+            }
+            if shape == EmptyShape::BuiltEmpty {
+                if !self.build(ex, t) {
+                    return false;
+                }
+                if self.idx[t].dirty {
+                    // the build failed and the transaction was aborted: give up
+                    return true;
+                }
+            }
+        }
+        if !self.idx[h].dirty {
+            let wh = self.idx[h].w();
+            let id = self.absent_id(h);
+            let v = self.gen_vec(h);
+            bail_if_dead!(self.step(ex, Op::Add(wh, id, v)));
+        }
+        let others: Vec<Metric> = Metric::ALL.iter().copied().filter(|m| *m != w.metric).collect();
+        let m = self.forced.target.filter(|m| *m != w.metric).unwrap_or(*self.r.pick(&others));
+        bail_if_dead!(ex.exec(&Op::Dump));
+        bail_if_dead!(self.step(ex, Op::Prepare(w, m)));
+        bail_if_dead!(ex.exec(&Op::Dump));
+        for i in 0..self.idx.len() {
+            let wi = self.idx[i].w();
+            bail_if_dead!(ex.exec(&Op::NeedBuild(wi)));
+            bail_if_dead!(ex.exec(&Op::Open(wi)));
+            bail_if_dead!(ex.exec(&Op::IsEmpty(wi)));
+        }
+        self.recover(ex)
+    }
+
     // ---------------------------------------------------------------- probes
 
     /// The probe ops for index `i` (built, no pending change), each with the id it touches.
@@ -1381,7 +1471,14 @@ impl<'p> Gen<'p> {
 
     fn run(&mut self, ex: &mut Executor) -> bool {
         let p = self.p;
-        let rounds = p.rounds.sample(&mut self.r).max(if p.crash_mode { 2 } else { 1 });
+        let min_rounds = if p.crash_mode {
+            2
+        } else if self.empty_target.is_some() {
+            3
+        } else {
+            1
+        };
+        let rounds = p.rounds.sample(&mut self.r).max(min_rounds);
         bail_if_dead!(ex.exec(&Op::Begin));
         for round in 0..rounds {
             if self.broken_count >= 3 {
@@ -1451,6 +1548,12 @@ impl<'p> Gen<'p> {
                     self.idx[i].dense_span =
                         ((k as f64 * p.dense_span_factor) as u64 + 4).min(u32::MAX as u64);
                 }
+                match self.empty_target {
+                    Some((t, EmptyShape::NeverFilled)) if t == i => k = 0,
+                    // the other indexes of such a case must hold something
+                    Some((t, _)) if first && t != i => k = k.max(4),
+                    _ => {}
+                }
                 for _ in 0..k {
                     plan.push(i);
                 }
@@ -1483,6 +1586,9 @@ impl<'p> Gen<'p> {
                     return false;
                 }
             }
+            if !first && !self.empty_prepare(ex) {
+                return false;
+            }
             if !last_of_crash && self.r.chance(p.p_commit_before_build) {
                 bail_if_dead!(self.commit(ex));
                 bail_if_dead!(ex.exec(&Op::Dump));
@@ -1497,6 +1603,10 @@ impl<'p> Gen<'p> {
             self.r.shuffle(&mut order);
             for i in order {
                 if !(all || self.idx[i].dirty) || self.r.chance(p.p_skip_build) {
+                    continue;
+                }
+                if matches!(self.empty_target, Some((t, EmptyShape::NeverFilled)) if t == i) {
+                    // never filled also means never built, until its metric was changed
                     continue;
                 }
                 if !self.build(ex, i) {
